@@ -15,6 +15,8 @@ ProdKind == [plit |-> "int", pstr |-> "str", pvar |-> "map", pnot |-> "bool", pi
              pnone |-> "none", pundefopt |-> "undef", pfloat |-> "float", pbytes |-> "bytes"]
 ConsAccepts == [cadd |-> {"int", "float"}, cneg |-> {"int", "float"}, cupper |-> {"str"}, cabs |-> {"int", "float"}, cfor |-> {"str", "arr", "map", "bytes"},
                 clt |-> {"int", "float"},
-                cspreadm |-> {"map"}, cspreada |-> {"arr"}, creplace |-> {"str"}, cdiv0 |-> {}, crange |-> {"int"}, cisdiv |-> {"int"}]
+                cspreadm |-> {"map"}, cspreada |-> {"arr"}, creplace |-> {"str"}, cdiv0 |-> {}, crange |-> {"int"}, cisdiv |-> {"int"},
+                \* the operand as the argument of a component whose parameter is declared `integer`: an inline call and a call with a body
+                ccomp |-> {"int"}, ccompbody |-> {"int"}]
 Fails(pn, cn) == ProdKind[pn] \notin ConsAccepts[cn]
 =============================================================================
